@@ -114,6 +114,10 @@ def make_field(rng, n, n_pol, peak, kind, fs):
         elif kind == "random_bl":
             S = (rng.normal(0, 1, n) + 1j * rng.normal(0, 1, n)) * (np.abs(np.fft.fftfreq(n)) < rng.uniform(0.03, 0.15))
             s = np.fft.ifft(S)
+        elif kind == "phase_coded":        # exactly flat envelope, not CW: BPSK / QPSK symbols held for a few samples
+            m = max(2, n // 32)
+            sym = (2.0 * rng.integers(0, 2, n // m + 1) - 1) + (1j * (2.0 * rng.integers(0, 2, n // m + 1) - 1) if rng.integers(2) else 0)
+            s = np.repeat(sym, m)[:n].astype(complex)
         elif kind == "leading_zeros":
             s = np.exp(-((t - 0.6 * n) / (n / 15)) ** 2).astype(complex)
             s[: int(rng.integers(2, n // 4))] = 0
@@ -128,7 +132,7 @@ def make_field(rng, n, n_pol, peak, kind, fs):
     return T.optical_signal(np.stack([r0, r1]) * sc)
 
 
-KINDS = ["gauss_train", "nrz", "random_bl", "leading_zeros"]
+KINDS = ["gauss_train", "nrz", "random_bl", "leading_zeros", "phase_coded"]
 
 
 def rand_params(rng, peak):
@@ -272,7 +276,7 @@ def w_zero_coefficients(ctx, rng, i):
     n_pol = 1 + (i // 16) % 2
     n = int(rng.choice([64, 127, 256]))
     peak = float(10 ** rng.uniform(-3, math.log10(0.5)))
-    x = make_field(rng, n, n_pol, peak, KINDS[int(rng.integers(4))], fs)
+    x = make_field(rng, n, n_pol, peak, KINDS[int(rng.integers(len(KINDS)))], fs)
     L = float(10 ** rng.uniform(-0.5, 1.5))
     alpha = 0.0 if mask & 1 else float(rng.uniform(0.05, 0.5))
     b2 = 0.0 if mask & 2 else float(rng.uniform(-25, 25))
@@ -303,7 +307,7 @@ def w_spm(ctx, rng, i):
     n = int(rng.choice([64, 128, 500]))
     n_pol = int(rng.integers(1, 3))
     peak = float(10 ** rng.uniform(-6, math.log10(0.5)))
-    x = make_field(rng, n, n_pol, peak, KINDS[int(rng.integers(4))], fs)
+    x = make_field(rng, n, n_pol, peak, KINDS[int(rng.integers(len(KINDS)))], fs)
     L = float(10 ** rng.uniform(-0.5, 2))
     alpha = float(rng.uniform(0.01, 0.5)) if i % 3 else 0.0
     gamma = float(rng.uniform(0.05, 1) * min(5.0, 10.0 / (peak * L)))
